@@ -95,6 +95,7 @@ PROPERTY_UNITS = {
     'C03': ['frame'],
     'C05': ['frame'],
     'C13': ['frame'],
+    'C06': ['frame'],
 }
 
 PROPERTY_LEVEL = {}
